@@ -8,6 +8,7 @@ import (
 	"fmt"
 	"net/url"
 	"reflect"
+	"strconv"
 	"strings"
 
 	"github.com/google/jsonschema-go/jsonschema"
@@ -20,6 +21,11 @@ import (
 	"verif/internal/par"
 	"verif/internal/ref"
 )
+
+var allKeywords = []string{"$id", "$schema", "$ref", "$comment", "$defs", "definitions", "$anchor", "$dynamicAnchor", "$dynamicRef", "$vocabulary", "title", "description", "default", "deprecated", "readOnly", "writeOnly", "examples",
+	"type", "enum", "const", "multipleOf", "minimum", "maximum", "exclusiveMinimum", "exclusiveMaximum", "minLength", "maxLength", "pattern", "prefixItems", "items", "additionalItems", "minItems", "maxItems", "uniqueItems",
+	"contains", "minContains", "maxContains", "unevaluatedItems", "minProperties", "maxProperties", "required", "dependentRequired", "properties", "patternProperties", "additionalProperties", "propertyNames", "unevaluatedProperties",
+	"allOf", "anyOf", "oneOf", "not", "if", "then", "else", "dependentSchemas", "dependencies", "contentEncoding", "contentMediaType", "contentSchema", "format", "x-unknown"}
 
 const alphabet = "{}[]\":,tn01.-\xc3"
 
@@ -213,6 +219,18 @@ func graphCases() []graphCase {
 	for i, c := range conflicts {
 		out = append(out, graphCase{fmt.Sprintf("conflict %d", i), c})
 	}
+	for _, ptr := range nonSchemaPointers {
+		ptr := ptr
+		out = append(out, graphCase{"rich Ref=" + ptr, func() *jsonschema.Schema {
+			s := richSchema()
+			s.Properties["a"] = &jsonschema.Schema{Ref: ptr}
+			return s
+		}}, graphCase{"rich nested Ref=" + ptr, func() *jsonschema.Schema {
+			s := richSchema()
+			s.ID = ""
+			return &jsonschema.Schema{Defs: map[string]*jsonschema.Schema{"r": s}, Items: &jsonschema.Schema{Ref: "#/$defs/r" + ptr[1:]}, AnyOf: []*jsonschema.Schema{{DynamicRef: "#/$defs/r" + ptr[1:]}}}
+		}})
+	}
 	for _, u := range badURIs {
 		u := u
 		for _, field := range []string{"ID", "Ref", "DynamicRef", "Anchor", "DynamicAnchor", "Schema"} {
@@ -230,6 +248,27 @@ func graphCases() []graphCase {
 		}
 	}
 	return out
+}
+
+// nonSchemaPointers lead into keywords whose values are not schemas.
+var nonSchemaPointers = []string{"#/minimum", "#/minimum/x", "#/type", "#/type/0", "#/enum", "#/enum/0", "#/enum/0/a", "#/const", "#/const/x", "#/required", "#/required/0", "#/default", "#/default/0", "#/default/a",
+	"#/dependencies/a", "#/dependencies/a/0", "#/dependencies/b", "#/$vocabulary", "#/$vocabulary/x", "#/examples", "#/examples/0", "#/x-extra", "#/x-extra/a", "#/dependentRequired/a", "#/dependentRequired/a/0",
+	"#/multipleOf", "#/title", "#/title/0", "#/$id", "#/$ref", "#/uniqueItems", "#/uniqueItems/x", "#/minLength", "#/minLength/0", "#/items/0", "#/items/a", "#/prefixItems/a", "#/prefixItems/-", "#/properties/a/0",
+	"#/Extra", "#/extra", "#/PropertyOrder/0", "#/propertyOrder", "#/pattern", "#/pattern/0", "#/format/x", "#/deprecated/x", "#/$comment/0", "#/$anchor/x", "#/$dynamicAnchor", "#/$schema/x", "#/contentEncoding/0",
+	"#/maxContains/0", "#/exclusiveMinimum/x", "#/readOnly", "#/$defs", "#/$defs/", "#/properties", "#/allOf", "#/allOf/x", "#/dependentSchemas", "#/patternProperties", "#/not/x", "#/if/0", "#"}
+
+func richSchema() *jsonschema.Schema {
+	one := 1.0
+	n := 1
+	var c any = map[string]any{"x": []any{1.0}}
+	return &jsonschema.Schema{
+		ID: "http://h/rich.json", Title: "t", Comment: "c", Type: "", Types: []string{"object", "integer"}, Enum: []any{map[string]any{"a": 1.0}, 1.0}, Const: &c,
+		Minimum: &one, MultipleOf: &one, ExclusiveMinimum: &one, MinLength: &n, MaxContains: &n, Pattern: "a", Format: "x", Required: []string{"a"}, Default: json.RawMessage(`{"a":[1]}`), Examples: []any{[]any{1.0}},
+		DependencyStrings: map[string][]string{"a": {"b"}}, DependencySchemas: map[string]*jsonschema.Schema{"b": {}}, DependentRequired: map[string][]string{"a": {"b"}}, Vocabulary: map[string]bool{"x": true},
+		Extra: map[string]any{"x-extra": map[string]any{"a": map[string]any{"type": "integer"}}}, UniqueItems: true, ReadOnly: true, Deprecated: true, ContentEncoding: "base64", Anchor: "anc", DynamicAnchor: "dyn",
+		Items: &jsonschema.Schema{}, PrefixItems: []*jsonschema.Schema{{}}, Properties: map[string]*jsonschema.Schema{"a": {}}, PropertyOrder: []string{"a"}, AllOf: []*jsonschema.Schema{{}}, Not: &jsonschema.Schema{}, If: &jsonschema.Schema{},
+		Defs: map[string]*jsonschema.Schema{"": {}}, DependentSchemas: map[string]*jsonschema.Schema{"a": {}}, PatternProperties: map[string]*jsonschema.Schema{"^a": {}},
+	}
 }
 
 var badURIs = []string{"%zz", ":", "http://[::1", "#", "##", "#/~2", "a b", "\x7f", "", "#/", "#/a/~", "http://h/%", "//", "?#", "#%41", "#/items/0", "#/allOf/99999999999999999999", "\x00", "http://h/a#b#c", "urn:", "a:b:c", "../../..", "#/properties/a/items"}
@@ -268,6 +307,21 @@ func resolveOpts() []optCase {
 		{"loader ping-pong", func() *jsonschema.ResolveOptions {
 			return &jsonschema.ResolveOptions{BaseURI: "http://h/r.json", Loader: pingpong}
 		}},
+		{"loader one shared *Schema for every URI", func() *jsonschema.ResolveOptions {
+			shared := &jsonschema.Schema{Type: "object", Properties: map[string]*jsonschema.Schema{"a": {Ref: "other.json"}}}
+			return &jsonschema.ResolveOptions{BaseURI: "http://h/r.json", Loader: func(*url.URL) (*jsonschema.Schema, error) { return shared, nil }}
+		}},
+		{"loader documents sharing a subschema pointer", func() *jsonschema.ResolveOptions {
+			sub := &jsonschema.Schema{Type: "integer", Anchor: "x"}
+			return &jsonschema.ResolveOptions{BaseURI: "http://h/r.json", Loader: func(u *url.URL) (*jsonschema.Schema, error) {
+				return &jsonschema.Schema{ID: u.String(), Defs: map[string]*jsonschema.Schema{"s": sub}, Items: sub}, nil
+			}}
+		}},
+		{"loader document with fragment $id and bad pattern", func() *jsonschema.ResolveOptions {
+			return &jsonschema.ResolveOptions{BaseURI: "http://h/r.json", Loader: func(u *url.URL) (*jsonschema.Schema, error) {
+				return &jsonschema.Schema{ID: "#frag", PatternProperties: map[string]*jsonschema.Schema{"(": {}}, DynamicRef: "#nowhere"}, nil
+			}}
+		}},
 		{"ValidateDefaults", func() *jsonschema.ResolveOptions { return &jsonschema.ResolveOptions{ValidateDefaults: true} }},
 		{"ValidateDefaults+loader", func() *jsonschema.ResolveOptions {
 			return &jsonschema.ResolveOptions{BaseURI: "http://h/r.json", ValidateDefaults: true, Loader: pingpong}
@@ -283,8 +337,8 @@ func Run(r *ev.Run) {
 	if thorough {
 		maxLen = 5
 	}
-	r.Rule(fmt.Sprintf("(i) json.Unmarshal into Schema of every byte string of length<=%d over the 14-byte alphabet {}[]\":,tn01.-\\xc3 and of the complete single-byte edit neighbourhood (delete/replace/insert at every offset) of %d minimal documents (one per keyword shape); ", maxLen, len(minimalDocs)) +
-		"(ii) Resolve (then Validate, Marshal, CloneSchemas when it succeeds) on Schema graphs: every pair of subschema-bearing fields with a shared child, a 2-cycle, self-cycles, nil children, the same child twice, 300-deep chains, conflicting fields, 23 malformed URIs in every URI-valued field x 10 resolve-option sets (malformed/relative/fragment BaseURI, loader error / wrong document / self-referential / ping-pong universe, ValidateDefaults with malformed default bytes); " +
+	r.Rule(fmt.Sprintf("(i) json.Unmarshal into Schema of every byte string of length<=%d over the 14-byte alphabet {}[]\":,tn01.-\\xc3, of every keyword x 23 JSON values of every shape (alone, nested, twice) and of the complete single-byte edit neighbourhood (delete/replace/insert at every offset) of %d minimal documents (one per keyword shape); ", maxLen, len(minimalDocs)) +
+		"(ii) Resolve (then Validate, Marshal, CloneSchemas when it succeeds) on Schema graphs: every pair of subschema-bearing fields with a shared child, a 2-cycle, self-cycles, nil children, the same child twice, 300-deep chains, conflicting fields, 23 malformed URIs in every URI-valued field, 66 JSON Pointers leading into non-schema keywords of a fully populated schema ($ref and $dynamicRef), x 13 resolve-option sets (malformed/relative/fragment BaseURI, loader error / wrong document / self-referential / ping-pong universe, ValidateDefaults with malformed default bytes); " +
 		"(v) three-document universes root -> d1 -> d2 through a Loader, each document declaring 2020-12 / draft-07 / nothing, d1 and d2 each carrying one of 15 draft-specific keyword shapes, 4 root forms: Resolve, then Validate and ApplyDefaults on 6 instances; " +
 		"(iii) Validate and ApplyDefaults on every (schema, value, representation) of C08's space, plus ApplyDefaults on typed map targets with defaults of matching and of wrong JSON type; (iv) For/ForType on every G-type type incl. recursive and unsupported ones x IgnoreInvalidTypes x TypeSchemas {nil, shared, cyclic}. " +
 		"Oracle: recover() around each call; a fatal runtime error kills the worker process and is attributed by the parent through the mmap journal; 120 s watchdog per call. Non-trivial = every call (distinct by construction)")
@@ -301,6 +355,18 @@ func Run(r *ev.Run) {
 				bs = append(bs, b)
 			}
 		})
+	}
+	// every keyword with a value of every JSON shape (most of them of the wrong type for it)
+	for _, k := range allKeywords {
+		for _, v := range []string{`1`, `-1`, `1.5`, `"s"`, `""`, `null`, `true`, `false`, `[]`, `{}`, `[1]`, `[null]`, `["a","a"]`, `{"a":null}`, `{"a":1}`, `{"a":[]}`, `{"a":["b",1]}`, `[[]]`, `[{}]`, `[true,null]`, `"#"`, `1e400`, `{"":{}}`} {
+			for _, tmpl := range []string{`{%q:%s}`, `{"items":{%q:%s}}`, `{"type":"object",%q:%s,"properties":{"a":{%q:%s}}}`} {
+				b := strings.Replace(strings.Replace(tmpl, "%q", strconv.Quote(k), -1), "%s", v, -1)
+				if !seen[b] {
+					seen[b] = true
+					bs = append(bs, b)
+				}
+			}
+		}
 	}
 	r.Set("byte_strings", len(bs))
 	par.For(len(bs), r.Expired, func(i int, j par.Journal) {
@@ -426,6 +492,8 @@ func Run(r *ev.Run) {
 		func() any { return &map[string]string{"a": "x"} }, func() any { return &map[string][]int{} }, func() any { return &map[string]*int{} },
 		func() any { return &map[string]map[string]int{"b": {}} }, func() any { return &map[string]any{"b": map[string]int{}} }, func() any { return &map[string]gen.MyMap{} },
 		func() any { var a any; return &a }, func() any { var a any = []any{}; return &a },
+		func() any { m := map[string]any{}; return &map[string]*map[string]any{"b": &m} }, func() any { return &map[string]*map[string]any{"b": nil} }, func() any { var p *map[string]any; return &p },
+		func() any { return &map[string][]map[string]any{"b": {{}}} }, func() any { return &map[string]any{"b": &map[string]any{}} }, func() any { return &map[string]any{"b": gen.MyMap{}} },
 		func() any { return &map[string]map[gen.MyKey]any{"b": {}} }, func() any { return &map[string]json.Number{} }, func() any { return &map[string]float32{} },
 	}
 	par.For(len(schemas)*len(typed), r.Expired, func(i int, j par.Journal) {
@@ -530,7 +598,7 @@ func mixedDrafts(r *ev.Run) {
 			if err := json.Unmarshal([]byte(root), &s); err != nil {
 				return
 			}
-			rs, err := s.Resolve(&jsonschema.ResolveOptions{BaseURI: "http://h/root.json", Loader: ml.Load, ValidateDefaults: i%2 == 0})
+			rs, err := s.Resolve(&jsonschema.ResolveOptions{BaseURI: "http://h/root.json", Loader: ml.Load, ValidateDefaults: (i/len(roots))%2 == 0})
 			if err != nil {
 				return
 			}
